@@ -237,8 +237,8 @@ func init() {
 				for i, pc := range c17NestedPrograms() {
 					pc, i := pc, i
 					c.Do(func() any { return c17Spec{Form: "nested", Lo: i, Doc: pc.source()} }, func() *fw.Violation {
-						v, _, skipped := pc.check(c)
-						if !skipped && v == nil {
+						v := pc.mustCheck(c, "nested and repeated print statements")
+						if v == nil {
 							c.State("nested print statements")
 						}
 						return v
